@@ -357,29 +357,15 @@ static void op_amr(const std::vector< std::string > &w) {
   } else if (sub == "loc" && w.size() == 5) {
     const CoordinateVector<> p(dbl(w[2]), dbl(w[3]), dbl(w[4]));
     {
-      // rounding puts the computed block index / a child index out of range (the answer line says
-      // so, from the same arithmetic as the model); the property is then checked on the real
-      // get_key / get_cell in a forked child: they must come back with a leaf that contains the
-      // position
+      // where rounding puts the plain block / child index arithmetic out of range the real look-up
+      // is first tried in a forked child (before fix 2fae05a it aborted or read out of bounds)
       const int oor = amr_out_of_range(*amr, amr_box, amr_n, p);
-      if (oor != 0) {
-        if (oor == 1) {
-          uint_fast32_t bi[3];
-          for (int i = 0; i < 3; ++i)
-            bi[i] = amr_n[i] * (p[i] - amr_box.get_anchor()[i]) / amr_box.get_sides()[i];
-          std::cout << "amr loc out-of-range " << bi[0] << " " << bi[1] << " " << bi[2] << "\n";
-        } else {
-          std::cout << "amr loc out-of-range child\n";
-        }
-        const CoordinateVector<> scp = box_scale(amr_box);
-        const bool ok = probe_ok([&]() {
-          const amrkey_t k = amr->get_key(p);
-          AMRGridCell< uint64_t > &cc = (*amr)[k];
-          return cc.is_single_cell() && in_box(cc.get_geometry(), p, AMR_TOL, scp) &&
-                 &amr->get_cell(p) == &cc.value();
-        });
-        if (!ok)
-          oracle(oor == 1 ? "locate-index-out-of-range amr" : "locate-index-out-of-range amr-child");
+      if (oor != 0 && !probe_ok([&]() {
+            const amrkey_t k = amr->get_key(p);
+            return (*amr)[k].is_single_cell();
+          })) {
+        std::cout << "amr loc implementation-failed\n";
+        oracle(oor == 1 ? "locate-index-out-of-range amr" : "locate-index-out-of-range amr-child");
         return;
       }
     }
@@ -444,10 +430,8 @@ static void op_amr(const std::vector< std::string > &w) {
         }
       }
     }
-    if (raw_oor)
-      std::cout << "amr key out-of-range\n";
-    else
-      std::cout << "amr key " << key << "\n";
+    (void)raw_oor;
+    std::cout << "amr key " << key << "\n";
     // oracle: the (virtual) cell the key addresses contains the position
     {
       const uint64_t block = key >> 32, cell = key & 0xffffffffull;
@@ -605,21 +589,8 @@ static void op_cart(const std::vector< std::string > &w) {
     const CoordinateVector< int_fast32_t > ix = cart->get_cell_indices(p);
     const cellsize_t li = cart->get_long_index(ix);
     const Box<> g = ((const CartesianDensityGrid *)cart)->get_cell(ix);
-    // the plain index arithmetic (the model's): when rounding pushes it out of range the answer
-    // line says so and the property is checked on what the real function returns
-    int_fast32_t raw[3];
-    for (int i = 0; i < 3; ++i)
-      raw[i] = (p[i] - cart_box.get_anchor()[i]) * cart->_inverse_cellside[i];
-    const bool rawin = raw[0] >= 0 && raw[0] < cart_n.x() && raw[1] >= 0 && raw[1] < cart_n.y() &&
-                       raw[2] >= 0 && raw[2] < cart_n.z();
     const bool inr = ix.x() >= 0 && ix.x() < cart_n.x() && ix.y() >= 0 && ix.y() < cart_n.y() &&
                      ix.z() >= 0 && ix.z() < cart_n.z();
-    if (!rawin) {
-      std::cout << "cart loc out-of-range " << raw[0] << " " << raw[1] << " " << raw[2] << "\n";
-      if (!inr || !in_box(g, p, CART_TOL, sc))
-        oracle("locate-index-out-of-range cartesian");
-      return;
-    }
     std::cout << "cart loc " << ix.x() << " " << ix.y() << " " << ix.z() << " " << (int64_t)li << " "
               << show_box(g) << "\n";
     if (!inr) {
